@@ -13,7 +13,7 @@ import CogentModel.Model.KV
 import CogentModel.Model.DataStore
 namespace CogentModel.DataStoreSqlite
 open CogentModel.KV
-open CogentModel.DataStore (Mode Err Res Op)
+open CogentModel.DataStore (Mode Err Res Op startsWith pathName sResults sLogs)
 
 structure Row (D : Type) where
   data : D
@@ -105,7 +105,11 @@ def writeRow (H : D → D) (s0 : Sql D) (id : Str) (data : D) (completed : Bool)
   else if has s.rows id then (s, .err .integrity)
   else ({ s with rows := s.rows ++ [(id, ⟨data, H data, completed⟩)] }, .done (some id))
 
-def write (H : D → D) (s : Sql D) (id : Str) (data : D) : Sql D × Res :=
+/-- `if unique_id.startswith(table): unique_id = Path(unique_id).name` -/
+def stripTable (table id : Str) : Str := if startsWith id table then pathName id else id
+
+def write (H : D → D) (s : Sql D) (id0 : Str) (data : D) : Sql D × Res :=
+  let id := stripTable sResults id0
   match checkWritable s id with
   | (s1, some e) => (s1, .err e)
   | (s1, none) =>
@@ -114,7 +118,8 @@ def write (H : D → D) (s : Sql D) (id : Str) (data : D) : Sql D × Res :=
     | (s2, .done m) =>
       (if s2.cCache.contains id then s2 else { s2 with cCache := s2.cCache ++ [id] }, .done m)
 
-def writeNc (H : D → D) (s : Sql D) (id : Str) (data : D) : Sql D × Res :=
+def writeNc (H : D → D) (s : Sql D) (id0 : Str) (data : D) : Sql D × Res :=
+  let id := stripTable sResults id0
   match checkWritable s id with
   | (s1, some e) => (s1, .err e)
   | (s1, none) =>
@@ -122,7 +127,8 @@ def writeNc (H : D → D) (s : Sql D) (id : Str) (data : D) : Sql D × Res :=
     | (s2, .err e) => (s2, .err e)
     | (s2, .done m) => ({ s2 with ncCache := s2.ncCache ++ [id] }, .done m)
 
-def writeLog (s : Sql D) (id : Str) (data : D) : Sql D × Res :=
+def writeLog (s : Sql D) (id0 : Str) (data : D) : Sql D × Res :=
+  let id := stripTable sLogs id0
   match checkWritable s id with
   | (s1, some e) => (s1, .err e)
   | (s1, none) =>
